@@ -45,7 +45,7 @@ REQUIRED_PROBES = ['corrupt_sa', 'corrupt_R', 'corrupt_T', 'corrupt_X', 'corrupt
                    'edge_scalar_bit255', 'msg_len_0', 'msg_len_512', 'adapter_as_sig',
                    'wrong_scalar_decrypt', 'crash_between_decrypt_and_publish',
                    'splice', 'misroute', 'honest_spend_accepted', 'extract',
-                   'check_after_unrelated_derive'] + \
+                   'check_after_unrelated_derive', 'two_adapters_in_one_execution'] + \
     ['variant_' + v for v in VARIANTS]
 
 
@@ -167,6 +167,12 @@ def gen_plan(run_seed, idx, tier):
         live = [p for p in per if p]
         p = live[rng.below(len(live))] if not fault_free else live[0]
         steps.append(p.pop(0))
+    if n >= 2 and rng.chance(1, 2):
+        # a settlement that handles two adapters in ONE execution (e.g. both legs
+        # of a swap): check both, then decrypt both
+        a, b = rng.sample(sorted(exchanges), 2)
+        steps.append({'ex': a, 'act': 'settle_pair', 'with': b,
+                      'order': rng.choice(['ab', 'ba']), 'how': rng.choice(['script', 'auth'])})
     return {'property': PID, 'run_seed': run_seed, 'idx': idx,
             'knobs': {'fault_free': fault_free}, 'exchanges': exchanges, 'steps': steps}
 
@@ -559,7 +565,13 @@ def execute(plan, run):
                     else:
                         o = [x for x in exs.values() if x is not e]
                         z = o[0].t if o else rng.bytes(32)
-                    if scalar_to_int(clamp255(z)) % L == e.t_eff:
+                    # "wrong" is relative to the tweak point this adapter was really
+                    # made for: an unvalidated adapter may have been made for a T that
+                    # was damaged in the offer (e.g. T=G with its sign bit flipped is
+                    # -G, whose discrete log L-1 another exchange may hold)
+                    z_eff = scalar_to_int(clamp255(z)) % L
+                    T_used = e.T if src is e.validated else e.sent_for_T
+                    if z_eff == 0 or base_mult(int_to_scalar(z_eff)) == T_used:
                         continue
                     cand = run_decrypt(e, R, sa, z)
                     run.probe('wrong_scalar_decrypt')
@@ -571,6 +583,40 @@ def execute(plan, run):
                           detail={'ex': e.spec, 'what': what})
                 run.cell(*tag, what, ok)
                 run.ev('publish', i, e.eid, what, ok)
+        elif act == 'settle_pair':
+            o = exs.get(st.get('with'))
+            if o is None or e.validated is None or o.validated is None:
+                continue
+            run.probe('two_adapters_in_one_execution')
+            chk = T.compile_script('check_adapter_sig verify')
+            dec = T.compile_script('decrypt_adapter_sig')
+            pair = [e, o]
+            code = b''
+            for x in pair:
+                R, sa = x.validated
+                code += pb(sa) + pb(R) + pb(x.m) + pb(x.T) + pb(x.X) + chk
+            order = pair if st.get('order') == 'ab' else pair[::-1]
+            for x in order:
+                R, sa = x.validated
+                code += pb(sa) + pb(R) + pb(x.t) + dec
+            want = []
+            for x in order:
+                R, sa = x.validated
+                want += [point_add(R, x.T), int_to_scalar(scalar_to_int(sa) + x.t_eff)]
+            try:
+                _, stk, _ = F.run_script(code)
+                got = stk.list()
+            except LIB_ERRORS as exc:
+                got = 'raised ' + type(exc).__name__
+            run.check('V4_each_adapter_decrypts_to_its_own_signature', got == want,
+                      'C17/two_adapters_in_one_execution/%s' % (
+                          'raised' if isinstance(got, str) else 'wrong_decryption'),
+                      step=i, detail={'a': e.spec, 'b': o.spec, 'order': st.get('order')})
+            if got == want:
+                ok = all(ed_verify(x.X, x.m, got[2 * k] + got[2 * k + 1]) for k, x in enumerate(order))
+                run.check('V4_decrypted_sig_verifies', ok,
+                          'C17/two_adapters_in_one_execution/signature_does_not_verify', step=i)
+            run.ev('settle_pair', i, e.eid, o.eid, got == want)
         elif act == 'extract':
             if e.published is None or e.sent is None:
                 continue
